@@ -1783,6 +1783,8 @@ impl TestTextSelection for TextSelection {
                     let l = reftextsel.begin - self.end;
                     if l == 0 {
                         true
+                    } else if l > WHITESPACE_LIMIT {
+                        false
                     } else {
                         if let Ok(gap) =
                             resource.text_by_offset(&Offset::simple(self.end, reftextsel.begin))
@@ -1807,6 +1809,8 @@ impl TestTextSelection for TextSelection {
                     let l = self.begin - reftextsel.end;
                     if l == 0 {
                         true
+                    } else if l > WHITESPACE_LIMIT {
+                        false
                     } else {
                         if let Ok(gap) =
                             resource.text_by_offset(&Offset::simple(reftextsel.end, self.begin))
@@ -1962,6 +1966,8 @@ impl TestTextSelection for TextSelection {
                     let l = leftmost - self.end;
                     if l == 0 {
                         true
+                    } else if l > WHITESPACE_LIMIT {
+                        false
                     } else {
                         if let Ok(gap) =
                             resource.text_by_offset(&Offset::simple(self.end, leftmost))
@@ -1998,6 +2004,8 @@ impl TestTextSelection for TextSelection {
                     let l = self.begin - rightmost;
                     if l == 0 {
                         true
+                    } else if l > WHITESPACE_LIMIT {
+                        false
                     } else {
                         if let Ok(gap) =
                             resource.text_by_offset(&Offset::simple(rightmost, self.begin))
